@@ -1141,4 +1141,7 @@ var spec = run.Spec[Case]{ID: "C01", Name: "flat", Gen: genCase, Prop: prop, Cla
 
 func TestPropFlat(t *testing.T) { run.Generated(t, spec) }
 func TestRegress(t *testing.T)  { run.Regress(t, spec) }
-func TestReplay(t *testing.T)   { run.ReplayOne(t, spec) }
+func TestReplay(t *testing.T) {
+	run.ReplayOne(t, spec)
+	run.ReplayOne(t, partsSpec)
+}
